@@ -241,7 +241,65 @@ def gen_cases(tier, seed):
             cases.append({"op": "cdf", "spec": spec_for(st), "sub": int(rng.integers(1 << 31)), "q": [float(rng.uniform(0.3, 0.9)) for _ in range(3)], "cost": 200})
         for st in s2:
             cases.append({"op": "total-mass", "spec": spec_for(st), "sub": int(rng.integers(1 << 31)), "cost": 30})
+    # units as an input class: the same law with variables measured in other units (centimetres, kilometres per hour,
+    # millimetres): values above 100 and below 1e-2 - an absolute constant in the code shows up here
+    urng = np.random.default_rng([seed, 6, 77])
+    for k, cse in enumerate(cases):
+        if k % 3 == 1 and cse["op"] in ("pdf", "cdf", "marginal", "marginal-icdf", "total-mass", "marginal-pdf-3d"):
+            cse["units"] = [float(urng.choice([1e-3, 1e-2, 1.0, 1e2, 1e3])) for _ in cse["spec"]["dims"]]
     return cases
+
+
+def _inf_range_mech(model, ref, j, x, got, want, tol, what):
+    """Predicate of the known finding 'marginal-quadrature-over-0-inf-loses-a-narrow-density': the documented algorithm
+    itself - scipy's nquad of the model's joint pdf with the other variables over (0, inf) - reproduces virocon's value,
+    while the SAME integrand (virocon's own pdf) over finite limits that cover the bulk of the other variables gives the
+    reference value.  So the density is right and the (0, inf) quadrature lost it."""
+    from scipy import integrate
+
+    d = ref.n_dim
+    others = [i for i in range(d) if i != j][::-1]
+    order = others + [j]
+
+    def f(*args):
+        pt = np.array(args, float)[np.argsort(order)].reshape(1, d)
+        return float(np.asarray(model.pdf(pt), float)[0])
+
+    try:
+        with np.errstate(all="ignore"), M.quiet():
+            fin = []
+            for i in others:
+                lo, hi = ref.dim_range(i, eps=1e-10)
+                fin.append((max(0.0, float(lo)), float(hi)))
+            if what == "pdf":
+                v_inf, _ = integrate.nquad(f, [(0, np.inf)] * len(others), args=[x])
+                v_fin, _ = integrate.nquad(f, fin, args=[x], opts={"limit": 200})
+            else:
+                v_inf, _ = integrate.nquad(f, [(0, np.inf)] * len(others) + [(0, x)])
+                v_fin, _ = integrate.nquad(f, fin + [(0, x)], opts={"limit": 200})
+    except Exception:  # noqa: BLE001
+        return None
+    same_as_algorithm = abs(v_inf - got) <= 1e-9 * max(abs(got), 1e-300) + 1e-300
+    finite_is_right = abs(v_fin - want) <= 1e-3 * max(abs(want), 1e-12) + 10 * tol
+    if same_as_algorithm and finite_is_right:
+        return "marginal-quadrature-over-0-inf-loses-a-narrow-density"
+    return None
+
+
+def _overflows_in_range(ref):
+    g = np.logspace(0, 307, 62)
+    for i, c in enumerate(ref.cond):
+        if c is None:
+            continue
+        with np.errstate(all="ignore"):
+            try:
+                p = ref.params_at(i, g)
+            except Exception:  # noqa: BLE001
+                return True
+        for v in p.values():
+            if not np.all(np.isfinite(np.broadcast_to(np.asarray(v, float), g.shape))):
+                return True
+    return False
 
 
 def _points(ref, rng, n):
@@ -261,6 +319,12 @@ def _quantile_point(ref, qs):
 
 def run_case(case, ctx):
     spec = case["spec"]
+    if case.get("units"):
+        scaled = S.rescale_spec(spec, case["units"])
+        if scaled is not None:
+            spec = scaled
+            case["spec"] = scaled  # the factorisation monitor reads the spec of the running case
+            ctx.cls("units", "x".join(f"{u:g}" for u in case["units"]))
     rng = np.random.default_rng(case["sub"])
     model = S.build_virocon(spec)
     ref = S.RefModel(spec)
@@ -307,7 +371,7 @@ def run_case(case, ctx):
             Xi = np.maximum(np.round(X[:12]), 1).astype(np.int64)
             gi = np.asarray(model.pdf(Xi), float)
             gf = np.asarray(model.pdf(Xi.astype(float)), float)
-            okint = gi.shape == gf.shape and bool(np.all(gi == gf))
+            okint = gi.shape == gf.shape and bool(np.array_equal(gi, gf, equal_nan=True))
             ctx.check("c06.pdf-forms", okint, "joint pdf of an integer array differs from the same values as floats", "joint-pdf-integer-input-truncated" if (not okint and np.all(gi == np.trunc(gi))) else None, form="int-ndarray", got=gi[:3], want=gf[:3], **info)
             ctx.sample = {"op": op, **info, "n_points": int(len(X)), "first_point": X[0].tolist(), "pdf": float(a[0])}
         elif op == "cdf":
@@ -321,6 +385,11 @@ def run_case(case, ctx):
             got_l = float(np.asarray(model.cdf([list(map(float, x))]), float)[0]) if d == 2 else got
             ctx.check("c06.cdf-forms", abs(got_l - got) <= 1e-12, "joint cdf of a list differs from the array", **info)
             ctx.sample = {"op": op, **info, "point": x.tolist(), "cdf": got, "reference": want}
+        elif op in ("marginal", "marginal-pdf-3d", "marginal-cdf-3d") and _overflows_in_range(ref):
+            # marginal_* integrates the other variables over (0, inf) as documented; a dependence function that is not
+            # finite somewhere in that range (c * x**2 overflows at 1e154) is an ill-formed request there
+            ctx.count("c06.skipped-dependence-not-finite-on-the-integration-range")
+            ctx.nontrivial = False
         elif op in ("marginal", "marginal-pdf-3d", "marginal-cdf-3d"):
             j = case["dim"]
             qs = [0.5] * d
@@ -331,12 +400,14 @@ def run_case(case, ctx):
                 got = float(np.asarray(model.marginal_pdf(xs, j), float)[0])
                 want, err = ref_marginal(ref, j, x, "pdf")
                 tol = 1e-6 * max(1.0, abs(want)) + 10 * err
-                ctx.check("c06.marginal-pdf", abs(got - want) <= tol, "marginal_pdf of a conditional variable is not the integral of the joint density over the other variables", dim=j, x=x, got=got, want=want, tolerance=tol, **info)
+                okm = abs(got - want) <= tol
+                ctx.check("c06.marginal-pdf", okm, "marginal_pdf of a conditional variable is not the integral of the joint density over the other variables", None if okm else _inf_range_mech(model, ref, j, x, got, want, tol, "pdf"), dim=j, x=x, got=got, want=want, tolerance=tol, **info)
             if op in ("marginal", "marginal-cdf-3d"):
                 got = float(np.asarray(model.marginal_cdf(xs, j), float)[0])
                 want, err = ref_marginal(ref, j, x, "cdf")
                 tol = 1e-6 + 10 * err
-                ctx.check("c06.marginal-cdf", abs(got - want) <= tol, "marginal_cdf of a conditional variable is not the integral of its marginal density", dim=j, x=x, got=got, want=want, tolerance=tol, **info)
+                okm = abs(got - want) <= tol
+                ctx.check("c06.marginal-cdf", okm, "marginal_cdf of a conditional variable is not the integral of its marginal density", None if okm else _inf_range_mech(model, ref, j, x, got, want, tol, "cdf"), dim=j, x=x, got=got, want=want, tolerance=tol, **info)
             # unconditional variable: marginal_* are the distribution's own functions
             k = 0
             xu = np.array([float(_quantile_point(ref, [0.3] * d)[0]), float(_quantile_point(ref, [0.8] * d)[0])])
